@@ -103,6 +103,8 @@ def ensure_makefile():
 def coq_make(targets, timeout=1500):
     """make the given .vo targets (paths relative to coq/); returns (ok, log)"""
     ensure_makefile()
+    if not targets:
+        return True, ""
     cmd = ["make", "-j%d" % NPROC, "-k"] + list(targets)
     rc, out, err = sh(cmd, cwd=COQ, timeout=timeout)
     log = out + err
